@@ -265,6 +265,24 @@ func ruleKillArg(c *Ctx) {
 				c.check(isCall && cnt.Call.StaticCallee() == gt && vkey(cnt.Call.Args[0]) == vkey(cl.Call.Args[0]), R, key+":yield-transfers-whole-stack", p.ipos(cl),
 					"a yield hands over everything the host function left on its stack (GetTop())", "the yield site does not transfer GetTop() values: a host function that yields more (or fewer) values than it received loses payload and leaves stale values in the coroutine's registers")
 			}
+			if fname(fn) == "callGFunction" && kill && !yield {
+				// the host function that was a coroutine's last frame ends the coroutine — whether its body tail
+				// called it or it is the body itself (F62): the site does not depend on the tail-call flag
+				dependsOnFlag := false
+				for _, cd := range g.CondsAtInstr(cl) {
+					if pm, ok := cd.V.(*ssa.Parameter); ok && len(paramsOfType(fn, "bool")) > 0 && pm == paramsOfType(fn, "bool")[0] {
+						dependsOnFlag = true
+					}
+					if ph, ok := cd.V.(*ssa.Phi); ok {
+						for _, e := range ph.Edges {
+							if pm, ok := e.(*ssa.Parameter); ok && len(paramsOfType(fn, "bool")) > 0 && pm == paramsOfType(fn, "bool")[0] {
+								dependsOnFlag = true
+							}
+						}
+					}
+				}
+				c.check(!dependsOnFlag, R, key+":ends-coroutine-for-any-last-host-frame", p.ipos(cl), "reached for every host function that is the coroutine's only frame", "callGFunction ends the coroutine only when the host function was tail called: a coroutine whose body is itself a host function (coroutine.create(print)) never hands its results back and stays 'running'")
+			}
 			okc := true
 			why := ""
 			if hasErr != inThreadRun {
